@@ -606,3 +606,10 @@ def gen_cases(rng, tier):
         calls = [[rng.choice([0, 1, 2, 2, 3]), rng.choice([0, 1, 1, 2, 3]), rng.randint(0, 1)] for _ in range(ncalls)]
         cases.append(_rand_case(rng, calls, rng.random() < 0.35))
     return cases
+
+
+def translate(repo, gen_dir):
+    """regenerate Gen/C20_Program.v: the bodies of reset/is_initialized/initialize/advance/evolve translated statement by
+    statement into the model's combinators (fail closed); Proofs/C20_Program.v ties it to the hand model by reflexivity"""
+    from translate import c20_program
+    return [c20_program.translate(repo, gen_dir)]
